@@ -331,6 +331,15 @@ impl CtcDecoder {
                         next_prob_blank[[bi, label]],
                         next_prob_no_blank[[bi, label]],
                     ]);
+
+                    // Skip extensions with zero probability. Besides
+                    // impossible extensions, these are the extensions that
+                    // were merged into another beam state above: creating a
+                    // state for them would duplicate that state's prefix.
+                    if prob_sum == f32::NEG_INFINITY {
+                        continue;
+                    }
+
                     if topk_extensions.len() < beam_size.as_usize()
                         || prob_sum
                             > topk_extensions
